@@ -1,6 +1,7 @@
 import Txtpp.Lemmas.SinkFacts
 import Txtpp.Lemmas.CliFacts
 import Txtpp.Lemmas.NeededRel
+import Txtpp.Lemmas.ProjectRel
 import Txtpp.Lemmas.Hermetic
 /-!
 # Property C09 — `--needed` equals a normal build and rewrites nothing that is unchanged
@@ -95,5 +96,26 @@ theorem cli_needed_flag (p : CliParsed) (h : p.sub = none) :
     ({ p with needed := true } : CliParsed).config = { ({ p with needed := false } : CliParsed).config with mode := .inMemory } := by
   refine ⟨(build_mode p h).1, ?_⟩
   simp [CliParsed.config, h, CliFlags.applyTo, CliBuildFlags.applyTo]
+
+/-- **whole project: `--needed` succeeds exactly when a normal build does, and gives the same files.**
+Both whole runs (`Txtpp::run`: input resolution, scans, coordinator, all passes, dependencies included)
+start from the same tree; `projStale` is the executable side condition evaluated along the build run
+(no executed block reads a path that is stale at that moment - e.g. the own output, which the build
+has truncated and the only-if-needed run has not). The verdicts are equal, and the trees agree outside
+the final stale set. -/
+theorem needed_project_vs_build_project (cfg : Cfg) (hb : cfg.mode = .build) (fs : FS) (inputs : List Str) (Sfin : List Path)
+    (hst : projStale cfg (trNeeded cfg) fs inputs [] = some Sfin) :
+    (runProject cfg fs inputs).1 = (runProject cfg.toNeeded fs inputs).1 ∧
+    Agree Sfin (runProject cfg fs inputs).2 (runProject cfg.toNeeded fs inputs).2 :=
+  Txt.needed_project_vs_build_project cfg hb fs inputs Sfin hst
+
+/-- … with nothing stale at the end (every successful run where the side condition holds): the same
+bytes at every path -/
+theorem needed_project_eq_build_project (cfg : Cfg) (hb : cfg.mode = .build) (fs : FS) (inputs : List Str)
+    (hst : projStale cfg (trNeeded cfg) fs inputs [] = some []) :
+    (runProject cfg fs inputs).1 = (runProject cfg.toNeeded fs inputs).1 ∧
+    ∀ q, (runProject cfg fs inputs).2.file? q = (runProject cfg.toNeeded fs inputs).2.file? q := by
+  have h := Txt.needed_project_vs_build_project cfg hb fs inputs [] hst
+  exact ⟨h.1, fun q => h.2.2 q (by simp)⟩
 
 end C09
